@@ -188,23 +188,38 @@ def check_miss_and_counts(P, ctx):
         g = P.cfg(fn)
         ctx.fn(fn)
         N = util.Norm(P, fn, inline=False)
-        lc = [n for n in g.live() if n['kind'] == 'cond' and N.canon(n['expr']) in (ir.canon(('bin', '!=', ('local', 'node', None), ('int', 0))), ('local', 'node'))]
-        ok = len(lc) == 1
+        cm = [n for n in g.live() if n.get('decl') and n['decl']['init'] is not None and ir.top_nocast(n['decl']['init'])[0] == 'call' and ir.callee_name(ir.top_nocast(n['decl']['init'])) == 'cmp']
+        ok = len(cm) == 1
         if ok:
-            out = succ_of(lc[0], False)
-            # falling out of the descent (node == NULL)
+            cv = ('local', cm[0]['decl']['name'])
+            hit = [n for n in g.live() if n['kind'] == 'cond' and N.canon(n['expr']) in (ir.canon(('bin', '==', cv, ('int', 0))), ir.canon(('bin', '!=', cv, ('int', 0))))]
+            ok = len(hit) == 1
+        if ok:
+            pol = N.canon(hit[0]['expr'])[1] == '=='
+            # without ever hitting an equal key, which exits remain?
+            reach = g.reach_from(g.entry, cut_edges=[(hit[0]['id'], pol)])
+            exits = util.guided_exits(g, N, cut_edges=[(hit[0]['id'], pol)])
             if want is False:
-                ok = g.nodes[out]['kind'] == 'ret' and util.const_int(g.nodes[out]['expr']) == 0
-            elif m == 'get':
-                ok = throw_only(g, out) and g.nodes[out]['why'] == ('throw', want)
+                rets = [n for n in exits if n['kind'] == 'ret']
+                ok = bool(rets) and all(util.const_int(n['expr']) == 0 for n in rets) and not [n for n in exits if n['kind'] == 'term' and n['why'][0] == 'throw' and n['why'][1] == 'KeyError']
             else:
-                # rem: the found flag stays false on this edge, and `not found` raises
-                fc = [n for n in g.live() if n['kind'] == 'cond' and N.canon(n['expr'])[0] == 'local' and n['id'] in g.reach_from(out)]
-                ok = len(fc) >= 1 and throw_only(g, succ_of(fc[0], False)) and g.nodes[succ_of(fc[0], False)]['why'] == ('throw', want)
-                sets = [n for n in g.live() if n['kind'] == 'stmt' and n['expr'] is not None and N.canon(n['expr']) == ('assign', '=', N.canon(fc[0]['expr']), ('int', 1))] if ok else []
-                hit = [n for n in g.live() if n['kind'] == 'cond' and N.canon(n['expr']) == ir.canon(('bin', '==', ('local', 'c', None), ('int', 0)))]
-                ok = ok and len(sets) == 1 and len(hit) == 1 and g.must_pass(sets[0]['id'], through_edges=[(hit[0]['id'], True)])
-        ctx.check(ok, rule, fn['name'], site(fn), 'a key that is not in the tree %s' % ('raises KeyError' if want else 'yields false'))
+                normal = [n for n in exits if n['kind'] in ('ret', 'exit')]
+                thr = [n for n in exits if n['kind'] == 'term' and n['why'] == ('throw', want)]
+                # paths through the `found` flag are infeasible without a hit: a return reached only through a flag that is set only on the hit edge
+                feasible_normal = []
+                for n in normal:
+                    flags = [c for c in g.live() if c['kind'] == 'cond' and N.canon(c['expr'])[0] == 'local' and g.must_pass(n['id'], through_edges=[(c['id'], True)])]
+                    infeasible = False
+                    for c in flags:
+                        fv = N.canon(c['expr'])
+                        sets = [x for x in g.live() if x['kind'] == 'stmt' and x['expr'] is not None and N.canon(x['expr']) == ('assign', '=', fv, ('int', 1))]
+                        if sets and all(x['id'] not in reach or g.must_pass(x['id'], through_edges=[(hit[0]['id'], pol)]) for x in sets):
+                            infeasible = True
+                    if not infeasible:
+                        feasible_normal.append(n)
+                ok = bool(thr) and not feasible_normal
+        ctx.check(ok, rule, fn['name'], site(fn), 'a key that is not in the tree %s: without an equal key on the descent, %s' % (
+            'raises KeyError' if want else 'yields false', 'every exit is throw(KeyError)' if want else 'every return is false'))
     ctx.floor(rule, 3)
     rule = 'C03.count-pairing'
     fn = P.fn('Tree_Set')
